@@ -257,6 +257,7 @@ class Check:
             "rule": self.rule, "samples": self.samples[:8] or ["(none)"],
             "known_findings_seen": sorted(known.keys()),
             "known_finding_cases": {k: _count([sig for sig, _ in items]) for k, items in sorted(known.items())},
+            "known_finding_examples": {k: items[0][1][:1200] for k, items in sorted(known.items())},
             "notes": self.notes[:50],
         })
         if self.exhaustive is not None:
